@@ -98,9 +98,9 @@ func (r *Report) AnchorLost(rule, key, msg string) {
 	r.Fail(rule, key, "", "anchor-lost", msg)
 }
 
-func (r *Report) Analysed(s string)              { r.analysed[s] = true }
-func (r *Report) Assume(s string)                { r.assume = append(r.assume, s) }
-func (r *Report) Note(s string)                  { r.notes = append(r.notes, s) }
+func (r *Report) Analysed(s string)             { r.analysed[s] = true }
+func (r *Report) Assume(s string)               { r.assume = append(r.assume, s) }
+func (r *Report) Note(s string)                 { r.notes = append(r.notes, s) }
 func (r *Report) Extra(k string, v interface{}) { r.extra[k] = v }
 
 type knownFinding struct {
